@@ -100,6 +100,8 @@ func roSx(o *smtp.RcptOptions) *Sx {
 	return L(A("ro"), n, XS(string(o.OriginalRecipientType)), XS(o.OriginalRecipient), rr)
 }
 
+const tripHang = 30 * time.Second
+
 func RunTrip(c TripCase) *Sx {
 	be := &RecBackend{script: cloneScript(c.Script), LMTPSess: c.Cfg.LMTPSession, NoSync: true}
 	if c.Cfg.HasAuth {
@@ -145,8 +147,13 @@ func RunTrip(c TripCase) *Sx {
 	if c.PreAuth {
 		preAuth = resSx(cl.Auth(sasl.NewPlainClient("", "user", "pass")))
 	}
+	// a call that does not return within tripHang (a Write into a pipe nobody reads any more) has both ends
+	// closed under it: the calls then fail with local errors, which the judges see
+	wd := time.AfterFunc(tripHang, func() { c1.Close(); c2.Close() })
+	defer wd.Stop()
 	for _, k := range c.Calls {
 		var err error
+		wd.Reset(tripHang)
 		switch k.Kind {
 		case "hello":
 			calls.Add(L(A("hello"), XS(k.Arg)))
